@@ -2,15 +2,15 @@
 # usage: try_mutant.sh <worktree> <diff> <demo> <check ids...>   (runs quick checks against the patched worktree)
 WT=$1; DIFF=$2; DEMO=$3; shift 3
 cd $WT || exit 2
-git checkout -q --detach main 2>/dev/null; git clean -fdq -e "mutant*.diff" -e "demo*.py"
+git checkout -q --detach main 2>/dev/null; git clean -fdq -e "mutant*.diff" -e "demo*.py" -e ".*.out"
 git checkout -q -- . 
 if [ -n "$DEMO" ] && [ -f "$DEMO" ]; then echo "demo clean: $(/venv/bin/python $DEMO 2>&1 | tail -1 | cut -c1-100) (exit $?)"; fi
 git apply $DIFF || { echo "PATCH DOES NOT APPLY"; exit 2; }
 echo "tests: $(/venv/bin/python -m pytest -q -p no:cacheprovider --timeout=900 --continue-on-collection-errors 2>&1 | tail -1)"
-if [ -n "$DEMO" ] && [ -f "$DEMO" ]; then /venv/bin/python $DEMO > /tmp/demo.out 2>&1; echo "demo patched: exit $? $(tail -1 /tmp/demo.out | cut -c1-100)"; fi
+if [ -n "$DEMO" ] && [ -f "$DEMO" ]; then /venv/bin/python $DEMO > $WT/.demo.out 2>&1; echo "demo patched: exit $? $(tail -1 $WT/.demo.out | cut -c1-100)"; fi
 cd /verif
 for c in "$@"; do
-  VERIF_REPO=$WT ./vf check $c > /tmp/mut.out 2>&1; rc=$?
-  echo "  $c exit=$rc $(grep -c '^VIOLATION' /tmp/mut.out) violations; $(grep -m2 'signature' /tmp/mut.out | cut -c1-160 | tr '\n' ';')"
+  VERIF_REPO=$WT ./vf check $c > $WT/.mut.out 2>&1; rc=$?
+  echo "  $c exit=$rc $(grep -c '^VIOLATION' $WT/.mut.out) violations; $(grep -m2 'signature' $WT/.mut.out | cut -c1-160 | tr '\n' ';')"
 done
 cd $WT && git checkout -q -- .
